@@ -256,6 +256,28 @@ Result run(const std::vector<std::function<void()>>& bodies, Schedule& sch, size
     return r.res;
 }
 
+namespace { bool g_crash_report = false; }
+// --- crash reporter: a fault inside a controlled run is an observation; print the schedule that led to it ---------
+namespace {
+void crash_handler(int sig) {
+    static const char hdr[] = "\nCRASH signal=";
+    char buf[64];
+    (void)!write(1, hdr, sizeof hdr - 1);
+    int n = snprintf(buf, sizeof buf, "%d tid=%d\nsched", sig, t_self);
+    (void)!write(1, buf, n);
+    Run* r = g_run;
+    if (r) for (int t : r->res.schedule) { n = snprintf(buf, sizeof buf, " %d", t); (void)!write(1, buf, n); }
+    (void)!write(1, "\nend\n", 5);
+    _exit(4);
+}
+}
+void report_crashes() {
+    g_crash_report = true;
+    struct sigaction sa; memset(&sa, 0, sizeof sa);
+    sa.sa_handler = crash_handler;
+    sigaction(SIGSEGV, &sa, nullptr); sigaction(SIGBUS, &sa, nullptr); sigaction(SIGABRT, &sa, nullptr); sigaction(SIGFPE, &sa, nullptr);
+}
+
 // --- determinism -----------------------------------------------------------------------------------------
 namespace {
 std::atomic<uint64_t> g_vtsc{1000000};
@@ -278,6 +300,7 @@ void tsc_trap(int, siginfo_t*, void* uc_) {
         uc->uc_mcontext.gregs[REG_RIP] += 3;
         return;
     }
+    if (g_crash_report) crash_handler(SIGSEGV);
     signal(SIGSEGV, SIG_DFL);                                    // a genuine fault: re-raise with default action
 }
 }
